@@ -277,6 +277,17 @@ func c01Check(r *ev.Run, id string, sc *c01Scenario) {
 			r.Class("bounds from the real clocks.SystemClock drift allowance" + map[bool]string{true: " (sub-second interval)", false: ""}[sc.Interval < 1e9])
 		}
 	}
+	if pnc != "" && sc.DriftPerSec > 0 && sc.DriftOfI == 0 {
+		// an allowance of zero leaves no room for any correction: refusing to start is a way to honour the bound
+		for _, e := range evs {
+			if e.Kind == "do" {
+				r.Violation("sync.Run|wrong-value:correction handed over although the drift allowance is zero", id, w(nil))
+				return
+			}
+		}
+		r.Class("refused: drift allowance of the real system clock below 1 ns")
+		return
+	}
 	if pnc != "" {
 		r.Violation("sync.Run|panic|admissible configuration", id, w(nil))
 		return
@@ -464,6 +475,11 @@ func c01Gen(rng *rand.Rand, bad int) *c01Scenario {
 		sc.DriftPerSec = []int64{1000, 20000, 100000, 1000000, 1000 * (1 + rng.Int64N(500))}[rng.IntN(5)]
 		sc.Interval = []int64{1e7, 1e8, 25e7, 5e8, 75e7, 1e9, 15e8, 2e9, 64e9, 1e7 * (1 + rng.Int64N(300))}[rng.IntN(10)]
 		sc.Timeout = []int64{0, sc.Interval / 2, rng.Int64N(sc.Interval/2 + 1)}[rng.IntN(3)]
+		if rng.IntN(6) == 0 { // drift x interval below 1 ns: the allowance is zero, never "unknown"
+			sc.DriftPerSec = []int64{1, 10, 100}[rng.IntN(3)]
+			sc.Interval = []int64{1e6, 5e6, 9e6}[rng.IntN(3)]
+			sc.Timeout = 0
+		}
 		sc.DriftOfI = new(big.Int).Div(new(big.Int).Mul(big.NewInt(sc.DriftPerSec), big.NewInt(sc.Interval)), big.NewInt(1e9)).Int64()
 	}
 	switch bad {
